@@ -680,9 +680,18 @@ func main() {
 		return
 	}
 
-	r.Rule("for every route of the server's real route table: the well-formed request of the route (path variables naming existing objects, declared query parameters, the payload the handler documents) and every combination of at most " + strconv.Itoa(plan.maxDevs) +
-		" deviation(s) in different slots {method, each path variable, the whole path, each declared query parameter, an undeclared parameter, the raw query, each of the headers Range/Accept/Accept-Language/Authorization/Content-Type/If-None-Match/Cookie, the body as a whole, each field of the body} x identities {administrator, non-administrator with every other permission, plain user}; each case is sent twice (cold caches, warm caches) over an in-memory HTTP/1.1 connection into net/http and the world is restored afterwards. " +
-		"evaluations = requests answered. distinct non-trivial = distinct (route, identity, loggers, set of deviations) whose request reached the router")
+	tierRule := "quick: administrator - the core values of every slot; non-administrator with all permissions - one value per slot; plain user - the well-formed request only; the well-formed request also with every logger active; the request is repeated with warm caches for GET/HEAD routes and well-formed requests"
+	if plan.thorough {
+		tierRule = "thorough: administrator - core values of every slot plus every value of the path-variable, parameter, query, path and whole-body slots, and pairs (first core value of each slot) of every two path-variable/parameter/body/body-field slots and of each of those with method, Authorization, Content-Type, Accept; non-administrator - core values; plain user - one value per slot; every case is sent twice (cold, then warm caches)"
+
+		if os.Getenv("C40_DEPTH") == "full" {
+			tierRule = "thorough, C40_DEPTH=full: every value of every slot for every identity, core values also with every logger active, pairs over all compatible slots; every case is sent twice"
+		}
+	}
+
+	r.Rule("for every route of the server's real route table: each well-formed request of the route (path variables naming existing objects, the payload the handler documents) and its deviations in at most " + strconv.Itoa(plan.maxDevs) +
+		" slot(s) of {method, each path variable, the whole path, each declared query parameter, the whole query, the headers Range/Accept/Accept-Language/Authorization/Content-Type/If-None-Match/Cookie and 8 more, the body as a whole, each node of a JSON body / field of a form} x identities {administrator, non-administrator with every other permission, plain user}; " + tierRule +
+		"; requests travel as HTTP/1.1 bytes over an in-memory connection into net/http; the world is restored after every case. evaluations = requests answered. distinct non-trivial = distinct (route, identity, loggers, set of deviations) whose request reached the router")
 	r.Assume(
 		"the last-resort recovery is switched off by ego.server.panic.recovery=false (checked before and after every case); a panic that reaches it is re-raised by reportRequestPanic and caught, with its stack, by the harness's wrapper around Router.ServeHTTP",
 		"a panic that a handler (or the Ego run time under it) recovers itself and answers with its own error response is not a firing of the last-resort recovery and is not flagged",
@@ -829,7 +838,7 @@ func (v *verdict) add(o outcome) {
 		v.r.Distinct(k.Route + "|" + k.Ident + "|" + k.Loggers + "|" + strings.Join(labels, "&"))
 
 		if (len(kinds) == 1 && k.Seq%9973 == 3) || k.Seq <= 3 {
-			v.cands = append(v.cands, cand{k.Seq, map[string]any{"route": k.Route, "identity": k.Ident, "deviations": k.Devs, "request": k.Req.show(), "status_cold_warm": res.Status}})
+			v.cands = append(v.cands, cand{k.Seq, map[string]any{"route": k.Route, "identity": k.Ident, "loggers": k.Loggers, "deviations": k.Devs, "request": k.Req.show(), "status_cold_warm": res.Status}})
 		}
 	}
 
